@@ -32,6 +32,7 @@
 
 #include "MSSMNoFV/gm2_1loop_helpers.hpp"
 #include "MSSMNoFV/gm2_2loop_helpers.hpp"
+#include "THDM/gm2_2loop_helpers.hpp"
 #include "gm2_config_options.hpp"
 #include "gm2_slha_io.hpp"
 
@@ -46,6 +47,7 @@
 #include <sstream>
 #include <string>
 #include <typeinfo>
+#include <vector>
 #include <unistd.h>
 #include <fcntl.h>
 #include <sys/mman.h>
@@ -100,6 +102,19 @@ std::string ev(const std::function<double()>& f)
 
 // ---------------------------------------------------------------- c15 ----
 
+/// public part functions on a copy converted to tree-level Yukawa couplings (the model on which the
+/// totals "without tan(beta) resummation" are documented to be the sum of their parts)
+void nr_parts(std::ostream& out, const Mssm& with_force_setting)
+{
+   using namespace gm2calc;
+   Mssm nr(with_force_setting);
+   nr.convert_to_non_tan_beta_resummed();
+   out << " nr_chi0=" << hexd(amu1LChi0(nr)) << " nr_chipm=" << hexd(amu1LChipm(nr))
+       << " nr_fsf=" << hexd(amu2LFSfapprox_non_tan_beta_resummed(nr))
+       << " nr_ph_chi0=" << hexd(amu2LChi0Photonic(nr)) << " nr_ph_chipm=" << hexd(amu2LChipmPhotonic(nr))
+       << " nr_a_sf=" << hexd(amu2LaSferm(nr)) << " nr_a_cha=" << hexd(amu2LaCha(nr));
+}
+
 void c15_mssm(std::ostream& out, const gm2calc::GM2_slha_io& io,
               const gm2calc::Config_options& cfg, bool slha)
 {
@@ -113,6 +128,18 @@ void c15_mssm(std::ostream& out, const gm2calc::GM2_slha_io& io,
    } else {
       io.fill_gm2calc(model);
       model.calculate_masses();
+   }
+   // the same with the documented defaults of convert_to_onshell() spelled out (MSSMNoFV_onshell.hpp:
+   // precision = 1e-8, max_iterations = 1000): a change of the library default itself must show
+   std::string val_explicit = "NA";
+   if (slha) {
+      val_explicit = ev([&] {
+         Mssm m2;
+         m2.do_force_output(cfg.force_output);
+         m2.set_verbose_output(cfg.verbose_output);
+         io.fill_slha(m2);
+         m2.convert_to_onshell(1e-8, 1000);
+         return calculate_amu_1loop(m2) + calculate_amu_2loop(m2); });
    }
    out << " setup=OK problem=" << (model.get_problems().have_problem() ? 1 : 0)
        << " warning=" << (model.get_problems().have_warning() ? 1 : 0)
@@ -149,27 +176,32 @@ void c15_mssm(std::ostream& out, const gm2calc::GM2_slha_io& io,
        << " a_cha=" << ev([&] { return amu2LaCha(model); })
        << " unc0=" << ev([&] { return calculate_uncertainty_amu_0loop(model); })
        << " unc1=" << ev([&] { return calculate_uncertainty_amu_1loop(model); })
-       << " unc2=" << ev([&] { return calculate_uncertainty_amu_2loop(model); });
+       << " unc2=" << ev([&] { return calculate_uncertainty_amu_2loop(model); })
+       << " a12_explicit_defaults=" << val_explicit;
 
    // without resummation: the program first tries with exceptions enabled
    // and repeats with force-output if that throws
    {
       int nonres_err = 0;
       std::string s1, s2;
+      std::ostringstream parts;
       try {
          Mssm m(model);
          m.do_force_output(false);
          const double a = calculate_amu_1loop_non_tan_beta_resummed(m);
          const double b = calculate_amu_2loop_non_tan_beta_resummed(m);
          s1 = hexd(a); s2 = hexd(b);
+         nr_parts(parts, m);
       } catch (const gm2calc::Error&) {
          nonres_err = 1;
          Mssm m(model);
          m.do_force_output(true);
          s1 = ev([&] { return calculate_amu_1loop_non_tan_beta_resummed(m); });
          s2 = ev([&] { return calculate_amu_2loop_non_tan_beta_resummed(m); });
+         parts.str("");
+         try { nr_parts(parts, m); } catch (...) { parts.str(""); }
       }
-      out << " a1l_nr=" << s1 << " a2l_nr=" << s2 << " nonres_err=" << nonres_err;
+      out << " a1l_nr=" << s1 << " a2l_nr=" << s2 << " nonres_err=" << nonres_err << parts.str();
    }
 
    // sub-parts printed only in the detailed report (library helper functions)
@@ -230,6 +262,63 @@ void c15_thdm(std::ostream& out, const gm2calc::GM2_slha_io& io,
        << " unc0=" << ev([&] { return calculate_uncertainty_amu_0loop(model); })
        << " unc1=" << ev([&] { return calculate_uncertainty_amu_1loop(model); })
        << " unc2=" << ev([&] { return calculate_uncertainty_amu_2loop(model); });
+   // sub-parts of the bosonic and fermionic 2-loop totals (src/THDM/gm2_2loop_helpers.hpp), parameters
+   // taken from the model as calculate_amu_2loop_bosonic / _fermionic do
+   try {
+      thdm::THDM_B_parameters b;
+      b.alpha_em = model.get_alpha_em(); b.mm = model.get_MFe(1); b.mw = model.get_MVWm(); b.mz = model.get_MVZ();
+      b.mhSM = model.get_sm().get_mh(); b.mA = model.get_MAh(1); b.mHp = model.get_MHm(1); b.mh = model.get_Mhh();
+      b.tb = model.get_tan_beta(); b.zetal = model.get_zeta_l(); b.cos_beta_minus_alpha = model.get_cos_beta_minus_alpha();
+      b.lambda5 = model.get_LambdaFive(); b.lambda67 = model.get_LambdaSixSeven();
+      thdm::THDM_F_parameters f;
+      f.alpha_em = model.get_alpha_em(); f.mm = model.get_MFe(1); f.mw = model.get_MVWm(); f.mz = model.get_MVZ();
+      f.mhSM = model.get_sm().get_mh(); f.mA = model.get_MAh(1); f.mHp = model.get_MHm(1); f.mh = model.get_Mhh();
+      f.ml = model.get_MFe(); f.mu = model.get_MFu(); f.md = model.get_MFd();
+      f.yuh = model.get_yuh(); f.yuH = model.get_yuH(); f.yuA = model.get_yuA(); f.yuHp = model.get_yuHp();
+      f.ydh = model.get_ydh(); f.ydH = model.get_ydH(); f.ydA = model.get_ydA(); f.ydHp = model.get_ydHp();
+      f.ylh = model.get_ylh(); f.ylH = model.get_ylH(); f.ylA = model.get_ylA(); f.ylHp = model.get_ylHp();
+      f.vckm = model.get_sm().get_ckm();
+      out << " B_EWadd=" << hexd(thdm::amu2L_B_EWadd(b)) << " B_nonYuk=" << hexd(thdm::amu2L_B_nonYuk(b))
+          << " B_Yuk=" << hexd(thdm::amu2L_B_Yuk(b)) << " F_charged=" << hexd(thdm::amu2L_F_charged(f))
+          << " F_neutral=" << hexd(thdm::amu2L_F_neutral(f));
+   } catch (...) {
+   }
+}
+
+/// c15iter: how the result of convert_to_onshell(1e-8, n) depends on n, for the scan of convergence regimes
+int run_c15iter()
+{
+   static const unsigned LADDER[] = {25, 50, 75, 100, 150, 200, 300, 400, 500, 600, 700, 800, 900, 1000, 1500, 2000, 4000};
+   std::string path;
+   long n = 0;
+   while (std::getline(std::cin, path)) {
+      if (path.empty()) continue;
+      std::ostringstream out;
+      out << "I " << n;
+      try {
+         gm2calc::GM2_slha_io io;
+         io.read_from_file(path);
+         for (unsigned it : LADDER) {
+            Mssm m;
+            io.fill_slha(m);
+            std::string st = "OK";
+            try {
+               m.convert_to_onshell(1e-8, it);
+            } catch (const std::exception& e) {
+               st = std::string("EXC:") + exc_class(e);
+            }
+            out << " n" << it << "=" << st << "," << hexd(m.get_Mu()) << "," << hexd(m.get_MassB()) << "," << hexd(m.get_MassWB())
+                << "," << hexd(m.get_me2(1, 1)) << "," << (m.get_problems().no_Mu_MassB_MassWB_convergence() ? 1 : 0)
+                << "," << (m.get_problems().no_me2_convergence() ? 1 : 0);
+         }
+      } catch (const std::exception& e) {
+         out << " setup=EXC:" << exc_class(e);
+      }
+      std::cout << out.str() << '\n';
+      ++n;
+   }
+   std::cout << "END " << n << std::endl;
+   return 0;
 }
 
 int run_c15()
@@ -286,61 +375,156 @@ bool has(const Par& p, const std::string& k) { return p.find(k) != p.end(); }
 
 const double PI = 3.141592653589793;
 
-/// C++ interface, MSSM; order of calls as in examples/example-slha.cpp and
-/// examples/example-gm2calc.cpp (SM parameters first, then tan(beta), ...)
-void cpp_mssm(std::ostream& out, const Par& p, bool force, bool slha)
+// ---- MSSM through the setter interface -------------------------------------------------------
+// The ORDER of the setter calls is part of the API alphabet (set_TB() uses the W and Z masses known at
+// the time of the call).  order = 0 canonical (as examples/example-slha.cpp / example-gm2calc.cpp: SM
+//   parameters, [pole masses,] tan(beta), model parameters, scale), 1 SM parameters last, 2 tan(beta)
+//   last, 3 reversed canonical,
+//   4 the valid point "b.<name>" is set up and evaluated, then the values that differ are set on the SAME
+//     object and it is evaluated again,
+//   5 the defective point is set up and evaluated (refused), then the valid point "b.<name>" is set up
+//     completely on the same object (canonical order) and evaluated again.
+
+const char* const SM_NAMES[] = {"alpha_MZ", "alpha_0", "alpha_s", "MT", "MB", "MM", "ML", "MW", "MZ"};
+
+std::vector<std::string> canonical_names(bool slha)
+{
+   std::vector<std::string> n(std::begin(SM_NAMES), std::end(SM_NAMES));
+   if (slha) {
+      for (const char* k : {"MSvmL", "MSm_1", "MSm_2", "MChi_1", "MChi_2", "MChi_3", "MChi_4", "MCha_1", "MCha_2", "MA"}) n.push_back(k);
+   }
+   for (const char* k : {"TB", "Mu", "M1", "M2", "M3"}) n.push_back(k);
+   for (int i = 1; i <= 3; i++) {
+      for (const char* k : {"mq2_", "ml2_", "md2_", "mu2_", "me2_"}) n.push_back(std::string(k) + std::to_string(i));
+   }
+   for (const char* k : {"Au_3", "Ad_3", "Ae_2", "Ae_3"}) n.push_back(k);
+   if (!slha) n.push_back("MA");
+   n.push_back("scale");
+   return n;
+}
+
+std::vector<std::string> ordered_names(bool slha, int order)
+{
+   const auto c = canonical_names(slha);
+   const auto is_sm = [](const std::string& k) {
+      for (const char* s : SM_NAMES) if (k == s) return true;
+      return false;
+   };
+   std::vector<std::string> n;
+   switch (order) {
+   case 1:
+      for (const auto& k : c) if (!is_sm(k)) n.push_back(k);
+      for (const auto& k : c) if (is_sm(k)) n.push_back(k);
+      return n;
+   case 2:
+      for (const auto& k : c) if (k != "TB") n.push_back(k);
+      n.push_back("TB");
+      return n;
+   case 3:
+      return std::vector<std::string>(c.rbegin(), c.rend());
+   default:
+      return c;
+   }
+}
+
+int idx_of(const std::string& n) { return n[n.size() - 1] - '1'; }
+
+void set_cpp(Mssm& m, const std::string& n, double v)
+{
+   if (n == "alpha_MZ") m.set_alpha_MZ(v);
+   else if (n == "alpha_0") m.set_alpha_thompson(v);
+   else if (n == "alpha_s") m.set_g3(std::sqrt(4 * PI * v));
+   else if (n == "MT") m.get_physical().MFt = v;
+   else if (n == "MB") m.get_physical().MFb = v;
+   else if (n == "MM") m.get_physical().MFm = v;
+   else if (n == "ML") m.get_physical().MFtau = v;
+   else if (n == "MW") m.get_physical().MVWm = v;
+   else if (n == "MZ") m.get_physical().MVZ = v;
+   else if (n == "MSvmL") m.get_physical().MSvmL = v;
+   else if (n.compare(0, 4, "MSm_") == 0) m.get_physical().MSm(idx_of(n)) = v;
+   else if (n.compare(0, 5, "MChi_") == 0) m.get_physical().MChi(idx_of(n)) = v;
+   else if (n.compare(0, 5, "MCha_") == 0) m.get_physical().MCha(idx_of(n)) = v;
+   else if (n == "MA") m.set_MA0(v);                 // = get_physical().MAh(1)
+   else if (n == "TB") m.set_TB(v);
+   else if (n == "Mu") m.set_Mu(v);
+   else if (n == "M1") m.set_MassB(v);
+   else if (n == "M2") m.set_MassWB(v);
+   else if (n == "M3") m.set_MassG(v);
+   else if (n.compare(0, 4, "mq2_") == 0) m.set_mq2(idx_of(n), idx_of(n), v);
+   else if (n.compare(0, 4, "ml2_") == 0) m.set_ml2(idx_of(n), idx_of(n), v);
+   else if (n.compare(0, 4, "md2_") == 0) m.set_md2(idx_of(n), idx_of(n), v);
+   else if (n.compare(0, 4, "mu2_") == 0) m.set_mu2(idx_of(n), idx_of(n), v);
+   else if (n.compare(0, 4, "me2_") == 0) m.set_me2(idx_of(n), idx_of(n), v);
+   else if (n == "Au_3") m.set_Au(2, 2, v);
+   else if (n == "Ad_3") m.set_Ad(2, 2, v);
+   else if (n == "Ae_2") m.set_Ae(1, 1, v);
+   else if (n == "Ae_3") m.set_Ae(2, 2, v);
+   else if (n == "scale") m.set_scale(v);
+   else throw std::logic_error("cli_api: unknown setter " + n);
+}
+
+void set_c(MSSMNoFV_onshell* m, const std::string& n, double v)
+{
+   const unsigned i = static_cast<unsigned>(idx_of(n));
+   if (n == "alpha_MZ") gm2calc_mssmnofv_set_alpha_MZ(m, v);
+   else if (n == "alpha_0") gm2calc_mssmnofv_set_alpha_thompson(m, v);
+   else if (n == "alpha_s") gm2calc_mssmnofv_set_g3(m, std::sqrt(4 * PI * v));
+   else if (n == "MT") gm2calc_mssmnofv_set_MT_pole(m, v);
+   else if (n == "MB") gm2calc_mssmnofv_set_MB_running(m, v);
+   else if (n == "MM") gm2calc_mssmnofv_set_MM_pole(m, v);
+   else if (n == "ML") gm2calc_mssmnofv_set_ML_pole(m, v);
+   else if (n == "MW") gm2calc_mssmnofv_set_MW_pole(m, v);
+   else if (n == "MZ") gm2calc_mssmnofv_set_MZ_pole(m, v);
+   else if (n == "MSvmL") gm2calc_mssmnofv_set_MSvmL_pole(m, v);
+   else if (n.compare(0, 4, "MSm_") == 0) gm2calc_mssmnofv_set_MSm_pole(m, i, v);
+   else if (n.compare(0, 5, "MChi_") == 0) gm2calc_mssmnofv_set_MChi_pole(m, i, v);
+   else if (n.compare(0, 5, "MCha_") == 0) gm2calc_mssmnofv_set_MCha_pole(m, i, v);
+   else if (n == "MA") gm2calc_mssmnofv_set_MAh_pole(m, v);
+   else if (n == "TB") gm2calc_mssmnofv_set_TB(m, v);
+   else if (n == "Mu") gm2calc_mssmnofv_set_Mu(m, v);
+   else if (n == "M1") gm2calc_mssmnofv_set_MassB(m, v);
+   else if (n == "M2") gm2calc_mssmnofv_set_MassWB(m, v);
+   else if (n == "M3") gm2calc_mssmnofv_set_MassG(m, v);
+   else if (n.compare(0, 4, "mq2_") == 0) gm2calc_mssmnofv_set_mq2(m, i, i, v);
+   else if (n.compare(0, 4, "ml2_") == 0) gm2calc_mssmnofv_set_ml2(m, i, i, v);
+   else if (n.compare(0, 4, "md2_") == 0) gm2calc_mssmnofv_set_md2(m, i, i, v);
+   else if (n.compare(0, 4, "mu2_") == 0) gm2calc_mssmnofv_set_mu2(m, i, i, v);
+   else if (n.compare(0, 4, "me2_") == 0) gm2calc_mssmnofv_set_me2(m, i, i, v);
+   else if (n == "Au_3") gm2calc_mssmnofv_set_Au(m, 2, 2, v);
+   else if (n == "Ad_3") gm2calc_mssmnofv_set_Ad(m, 2, 2, v);
+   else if (n == "Ae_2") gm2calc_mssmnofv_set_Ae(m, 1, 1, v);
+   else if (n == "Ae_3") gm2calc_mssmnofv_set_Ae(m, 2, 2, v);
+   else if (n == "scale") gm2calc_mssmnofv_set_scale(m, v);
+   else throw std::logic_error("cli_api: unknown setter " + n);
+}
+
+bool same_double(double a, double b) { return std::memcmp(&a, &b, sizeof(double)) == 0; }
+
+/// names whose value differs between the point and the valid base point "b.<name>"
+std::vector<std::string> changed_names(const Par& p, bool slha)
+{
+   std::vector<std::string> n;
+   for (const auto& k : canonical_names(slha)) {
+      if (!same_double(P(p, k), P(p, "b." + k))) n.push_back(k);
+   }
+   return n;
+}
+
+/// C++: conversion / spectrum + a_mu on the object as it is; prints "<pre>setup= <pre>amu= ..."
+void eval_cpp(std::ostream& out, Mssm& model, const Par& p, bool slha, const std::string& pre)
 {
    using namespace gm2calc;
-   Mssm model;
-   model.do_force_output(force);
    std::string setup = "OK";
    try {
-      model.set_alpha_MZ(P(p, "alpha_MZ"));
-      model.set_alpha_thompson(P(p, "alpha_0"));
-      model.set_g3(std::sqrt(4 * PI * P(p, "alpha_s")));
-      model.get_physical().MFt = P(p, "MT");
-      model.get_physical().MFb = P(p, "MB");
-      model.get_physical().MFm = P(p, "MM");
-      model.get_physical().MFtau = P(p, "ML");
-      model.get_physical().MVWm = P(p, "MW");
-      model.get_physical().MVZ = P(p, "MZ");
-      if (slha) {
-         model.get_physical().MSvmL = P(p, "MSvmL");
-         model.get_physical().MSm(0) = P(p, "MSm_1");
-         model.get_physical().MSm(1) = P(p, "MSm_2");
-         for (int i = 0; i < 4; i++) model.get_physical().MChi(i) = P(p, "MChi_" + std::to_string(i + 1));
-         for (int i = 0; i < 2; i++) model.get_physical().MCha(i) = P(p, "MCha_" + std::to_string(i + 1));
-         model.get_physical().MAh(1) = P(p, "MA");
-      }
-      model.set_TB(P(p, "TB"));
-      model.set_Mu(P(p, "Mu"));
-      model.set_MassB(P(p, "M1"));
-      model.set_MassWB(P(p, "M2"));
-      model.set_MassG(P(p, "M3"));
-      for (int i = 0; i < 3; i++) {
-         const std::string s = std::to_string(i + 1);
-         model.set_mq2(i, i, P(p, "mq2_" + s));
-         model.set_ml2(i, i, P(p, "ml2_" + s));
-         model.set_md2(i, i, P(p, "md2_" + s));
-         model.set_mu2(i, i, P(p, "mu2_" + s));
-         model.set_me2(i, i, P(p, "me2_" + s));
-      }
-      model.set_Au(2, 2, P(p, "Au_3"));
-      model.set_Ad(2, 2, P(p, "Ad_3"));
-      model.set_Ae(1, 1, P(p, "Ae_2"));
-      model.set_Ae(2, 2, P(p, "Ae_3"));
-      if (!slha) model.set_MA0(P(p, "MA"));
-      model.set_scale(P(p, "scale"));
       if (slha) model.convert_to_onshell();
       else model.calculate_masses();
    } catch (const std::exception& e) {
-      setup = std::string("EXC:") + exc_class(e) + " what=" + esc(e.what());
+      setup = std::string("EXC:") + exc_class(e) + " " + pre + "what=" + esc(e.what());
    } catch (...) {
       setup = "EXC:unknown";
    }
-   out << " setup=" << setup;
+   out << " " << pre << "setup=" << setup;
    if (setup == "OK") {
-      // nonres=1: the functions without tan(beta) resummation (they rebuild the spectrum with tree-level Yukawas)
       std::string amu_what = "-";
       const auto evw = [&amu_what](const std::function<double()>& f) -> std::string {
          try {
@@ -352,85 +536,92 @@ void cpp_mssm(std::ostream& out, const Par& p, bool force, bool slha)
             return "EXC:unknown";
          }
       };
+      // nonres=1: the functions without tan(beta) resummation (they rebuild the spectrum with tree-level Yukawas)
       if (P(p, "nonres") != 0) {
-         out << " amu=" << evw([&] { return calculate_amu_1loop_non_tan_beta_resummed(model)
-                                            + calculate_amu_2loop_non_tan_beta_resummed(model); });
+         out << " " << pre << "amu=" << evw([&] { return calculate_amu_1loop_non_tan_beta_resummed(model)
+                                                          + calculate_amu_2loop_non_tan_beta_resummed(model); });
       } else {
-         out << " amu=" << evw([&] { return calculate_amu_1loop(model) + calculate_amu_2loop(model); });
+         out << " " << pre << "amu=" << evw([&] { return calculate_amu_1loop(model) + calculate_amu_2loop(model); });
       }
-      out << " amuwhat=" << esc(amu_what);
-      out << " unc=" << ev([&] { return calculate_uncertainty_amu_2loop(model); });
+      out << " " << pre << "amuwhat=" << esc(amu_what);
+      out << " " << pre << "unc=" << ev([&] { return calculate_uncertainty_amu_2loop(model); });
    } else {
-      out << " amu=NA unc=NA";
+      out << " " << pre << "amu=NA " << pre << "unc=NA";
    }
-   out << " problem=" << (model.get_problems().have_problem() ? 1 : 0)
-       << " warning=" << (model.get_problems().have_warning() ? 1 : 0)
-       << " problems=" << esc(model.get_problems().get_problems() + model.get_problems().get_warnings())
-       << " mcha0=" << hexd(model.get_MCha(0));
+   out << " " << pre << "problem=" << (model.get_problems().have_problem() ? 1 : 0)
+       << " " << pre << "warning=" << (model.get_problems().have_warning() ? 1 : 0)
+       << " " << pre << "problems=" << esc(model.get_problems().get_problems() + model.get_problems().get_warnings());
+}
+
+/// C++ interface, MSSM
+void cpp_mssm(std::ostream& out, const Par& p, bool force, bool slha)
+{
+   Mssm model;
+   model.do_force_output(force);
+   const int order = static_cast<int>(P(p, "order"));
+   out << " order=" << order;
+   if (order == 4 || order == 5) {
+      const std::string first = order == 4 ? "b." : "", second = order == 4 ? "" : "b.";
+      for (const auto& k : canonical_names(slha)) set_cpp(model, k, P(p, first + k));
+      eval_cpp(out, model, p, slha, "pre_");
+      if (order == 4) {
+         for (const auto& k : changed_names(p, slha)) set_cpp(model, k, P(p, k));
+      } else {
+         // repair = the valid point is set up again completely (set_TB() must be repeated after MW, MZ)
+         for (const auto& k : canonical_names(slha)) set_cpp(model, k, P(p, second + k));
+      }
+   } else {
+      for (const auto& k : ordered_names(slha, order)) set_cpp(model, k, P(p, k));
+   }
+   eval_cpp(out, model, p, slha, "");
+   out << " mcha0=" << hexd(model.get_MCha(0));
+}
+
+void eval_c(std::ostream& out, MSSMNoFV_onshell* m, const Par& p, bool slha, const std::string& pre)
+{
+   const gm2calc_error err = slha ? gm2calc_mssmnofv_convert_to_onshell(m)
+                                  : gm2calc_mssmnofv_calculate_masses(m);
+   out << " " << pre << "setup=" << (err == gm2calc_NoError ? "OK" : "ERR") << " " << pre << "code=" << static_cast<int>(err)
+       << " " << pre << "codestr=" << esc(gm2calc_error_str(err));
+   if (err == gm2calc_NoError) {
+      if (P(p, "nonres") != 0) {
+         out << " " << pre << "amu=" << hexd(gm2calc_mssmnofv_calculate_amu_1loop_non_tan_beta_resummed(m)
+                                              + gm2calc_mssmnofv_calculate_amu_2loop_non_tan_beta_resummed(m));
+      } else {
+         out << " " << pre << "amu=" << hexd(gm2calc_mssmnofv_calculate_amu_1loop(m) + gm2calc_mssmnofv_calculate_amu_2loop(m));
+      }
+      out << " " << pre << "unc=" << hexd(gm2calc_mssmnofv_calculate_uncertainty_amu_2loop(m));
+   } else {
+      out << " " << pre << "amu=NA " << pre << "unc=NA";
+   }
+   char buf[1000];
+   std::string pr;
+   if (gm2calc_mssmnofv_have_problem(m)) { gm2calc_mssmnofv_get_problems(m, buf, sizeof(buf)); pr += buf; }
+   if (gm2calc_mssmnofv_have_warning(m)) { gm2calc_mssmnofv_get_warnings(m, buf, sizeof(buf)); pr += buf; }
+   out << " " << pre << "problem=" << (gm2calc_mssmnofv_have_problem(m) ? 1 : 0)
+       << " " << pre << "warning=" << (gm2calc_mssmnofv_have_warning(m) ? 1 : 0)
+       << " " << pre << "problems=" << esc(pr);
 }
 
 /// C interface, MSSM (include/gm2calc/MSSMNoFV_onshell.h); it has no force-output setter
 void c_mssm(std::ostream& out, const Par& p, bool slha)
 {
    MSSMNoFV_onshell* m = gm2calc_mssmnofv_new();
-   gm2calc_mssmnofv_set_alpha_MZ(m, P(p, "alpha_MZ"));
-   gm2calc_mssmnofv_set_alpha_thompson(m, P(p, "alpha_0"));
-   gm2calc_mssmnofv_set_g3(m, std::sqrt(4 * PI * P(p, "alpha_s")));
-   gm2calc_mssmnofv_set_MT_pole(m, P(p, "MT"));
-   gm2calc_mssmnofv_set_MB_running(m, P(p, "MB"));
-   gm2calc_mssmnofv_set_MM_pole(m, P(p, "MM"));
-   gm2calc_mssmnofv_set_ML_pole(m, P(p, "ML"));
-   gm2calc_mssmnofv_set_MW_pole(m, P(p, "MW"));
-   gm2calc_mssmnofv_set_MZ_pole(m, P(p, "MZ"));
-   if (slha) {
-      gm2calc_mssmnofv_set_MSvmL_pole(m, P(p, "MSvmL"));
-      gm2calc_mssmnofv_set_MSm_pole(m, 0, P(p, "MSm_1"));
-      gm2calc_mssmnofv_set_MSm_pole(m, 1, P(p, "MSm_2"));
-      for (unsigned i = 0; i < 4; i++) gm2calc_mssmnofv_set_MChi_pole(m, i, P(p, "MChi_" + std::to_string(i + 1)));
-      for (unsigned i = 0; i < 2; i++) gm2calc_mssmnofv_set_MCha_pole(m, i, P(p, "MCha_" + std::to_string(i + 1)));
-      gm2calc_mssmnofv_set_MAh_pole(m, P(p, "MA"));
-   }
-   gm2calc_mssmnofv_set_TB(m, P(p, "TB"));
-   gm2calc_mssmnofv_set_Mu(m, P(p, "Mu"));
-   gm2calc_mssmnofv_set_MassB(m, P(p, "M1"));
-   gm2calc_mssmnofv_set_MassWB(m, P(p, "M2"));
-   gm2calc_mssmnofv_set_MassG(m, P(p, "M3"));
-   for (unsigned i = 0; i < 3; i++) {
-      const std::string s = std::to_string(i + 1);
-      gm2calc_mssmnofv_set_mq2(m, i, i, P(p, "mq2_" + s));
-      gm2calc_mssmnofv_set_ml2(m, i, i, P(p, "ml2_" + s));
-      gm2calc_mssmnofv_set_md2(m, i, i, P(p, "md2_" + s));
-      gm2calc_mssmnofv_set_mu2(m, i, i, P(p, "mu2_" + s));
-      gm2calc_mssmnofv_set_me2(m, i, i, P(p, "me2_" + s));
-   }
-   gm2calc_mssmnofv_set_Au(m, 2, 2, P(p, "Au_3"));
-   gm2calc_mssmnofv_set_Ad(m, 2, 2, P(p, "Ad_3"));
-   gm2calc_mssmnofv_set_Ae(m, 1, 1, P(p, "Ae_2"));
-   gm2calc_mssmnofv_set_Ae(m, 2, 2, P(p, "Ae_3"));
-   if (!slha) gm2calc_mssmnofv_set_MAh_pole(m, P(p, "MA"));
-   gm2calc_mssmnofv_set_scale(m, P(p, "scale"));
-   const gm2calc_error err = slha ? gm2calc_mssmnofv_convert_to_onshell(m)
-                                  : gm2calc_mssmnofv_calculate_masses(m);
-   out << " setup=" << (err == gm2calc_NoError ? "OK" : "ERR") << " code=" << static_cast<int>(err)
-       << " codestr=" << esc(gm2calc_error_str(err));
-   if (err == gm2calc_NoError) {
-      if (P(p, "nonres") != 0) {
-         out << " amu=" << hexd(gm2calc_mssmnofv_calculate_amu_1loop_non_tan_beta_resummed(m)
-                                + gm2calc_mssmnofv_calculate_amu_2loop_non_tan_beta_resummed(m));
+   const int order = static_cast<int>(P(p, "order"));
+   out << " order=" << order;
+   if (order == 4 || order == 5) {
+      const std::string first = order == 4 ? "b." : "", second = order == 4 ? "" : "b.";
+      for (const auto& k : canonical_names(slha)) set_c(m, k, P(p, first + k));
+      eval_c(out, m, p, slha, "pre_");
+      if (order == 4) {
+         for (const auto& k : changed_names(p, slha)) set_c(m, k, P(p, k));
       } else {
-         out << " amu=" << hexd(gm2calc_mssmnofv_calculate_amu_1loop(m) + gm2calc_mssmnofv_calculate_amu_2loop(m));
+         for (const auto& k : canonical_names(slha)) set_c(m, k, P(p, second + k));
       }
-      out << " unc=" << hexd(gm2calc_mssmnofv_calculate_uncertainty_amu_2loop(m));
    } else {
-      out << " amu=NA unc=NA";
+      for (const auto& k : ordered_names(slha, order)) set_c(m, k, P(p, k));
    }
-   char buf[1000];
-   std::string pr;
-   if (gm2calc_mssmnofv_have_problem(m)) { gm2calc_mssmnofv_get_problems(m, buf, sizeof(buf)); pr += buf; }
-   if (gm2calc_mssmnofv_have_warning(m)) { gm2calc_mssmnofv_get_warnings(m, buf, sizeof(buf)); pr += buf; }
-   out << " problem=" << (gm2calc_mssmnofv_have_problem(m) ? 1 : 0)
-       << " warning=" << (gm2calc_mssmnofv_have_warning(m) ? 1 : 0)
-       << " problems=" << esc(pr);
+   eval_c(out, m, p, slha, "");
    gm2calc_mssmnofv_free(m);
 }
 
@@ -643,6 +834,7 @@ int main(int argc, char* argv[])
 {
    const std::string mode = argc > 1 ? argv[1] : "";
    if (mode == "c15") return run_c15();
+   if (mode == "c15iter") return run_c15iter();
    if (mode == "c16") return run_c16();
    std::fprintf(stderr, "usage: cli_api c15|c16 < cases\n");
    return 2;
